@@ -50,7 +50,7 @@ type PodPlan struct {
 	EnvRef       bool     `json:"envRef"` // container spec already carries NVIDIA_VISIBLE_DEVICES from the capabilities ConfigMap
 	BRDelayUs    int      `json:"brDelayUs"`
 	BindFailures int      `json:"bindFailures"` // the first k pods/binding calls for this pod are rejected
-	// Fate: stay | succeeded | failed | delete-after-run | delete-at
+	// Fate: stay | succeeded | succeeded-unseen | failed | rejected | delete-after-run | delete-at
 	Fate         string `json:"fate"`
 	FateDelayUs  int    `json:"fateDelayUs"`            // after the pod became Running (succeeded/failed/delete-after-run)
 	DeleteAtUs   int    `json:"deleteAtUs,omitempty"`   // absolute, fate delete-at
@@ -137,10 +137,14 @@ func genPlan(seed int64, index int, tier string) *Plan {
 		switch x := r.IntN(100); {
 		case x < 30:
 			pp.Fate = "stay"
-		case x < 50:
+		case x < 44:
 			pp.Fate = "succeeded"
-		case x < 60:
+		case x < 50:
+			pp.Fate = "succeeded-unseen" // Pending -> Succeeded: the Running state was never observed (short pod, re-list)
+		case x < 55:
 			pp.Fate = "failed"
+		case x < 60:
+			pp.Fate = "rejected" // Pending -> Failed: the kubelet rejects the bound pod (admission error, eviction before start)
 		case x < 75:
 			pp.Fate = "delete-after-run"
 		default:
